@@ -36,7 +36,7 @@ RULE = (
     "(faithful seeded / adversarial admissible / none -> default_rng through the numpy.random seam). Non-trivial: >= 1 "
     "adversarial outcome fired or >= 2 sample operations; distinct = distinct abstract trace signatures (dataset, generator "
     "kind, fault kinds fired, random flag, outcome class, parameter class)."
-    "Later rounds added (by-product clauses): tail rates 1e-12..1-1e-12, threshold dtypes, low-precision and integer model parameters, models on a large offset, NumPy integer supports; "
+     " Later rounds added (by-product clauses): tail rates 1e-12..1-1e-12, threshold dtypes, low-precision and integer model parameters, models on a large offset, NumPy integer supports; "
     "generators that raise, shuffle_identity/reverse/rotate, per-call overrides followed by plain calls."
 )
 COMPONENTS = {
